@@ -39,7 +39,7 @@ def single_case(j, path):
         env.load_pygom()
         from . import stoch
         k = case["config"]
-        cfg = stoch.Config(k["def"], k["theta"], k["x0"], k["T"], tuple(k["mode"]), t0=k["t0"], grid=k["grid"], name=k["name"])
+        cfg = stoch.Config(k["def"], k["theta"], k["x0"], k["T"], tuple(k["mode"]), t0=k["t0"], grid=k["grid"], name=k["name"], menu=k.get("menu"))
         m, order = stoch.make_model(cfg)
         rs = stoch.RefSim(cfg.d, cfg.theta, order)
         s = stoch.run_l2(m, cfg, list(case["violation"]["choices"]))
